@@ -29,7 +29,6 @@ class PVDevice(Device):
   def bounds(self, bounds):
     ''' @override bounds setter to ensure hbounds <= 0. '''
     Device.bounds.fset(self, bounds)
-    bounds = np.array(bounds)
     if not (self.hbounds <= 0).all():
       raise ValueError('hbounds must be <= 0')
 
